@@ -7,6 +7,7 @@ import (
 	"os"
 	"strconv"
 	"testing"
+	. "verifharness/hist"
 
 	"github.com/google/reftable"
 	"pgregory.net/rapid"
